@@ -68,7 +68,10 @@ def event_eq(ea, eb, idx):
         _, gas_b, to_b, val_b, cd_b = eb
         da = (cd_a["len"], lambda i, d=cd_a: Mx.data_byte(d, i))
         db = (cd_b["len"], lambda i, d=cd_b: Mx.data_byte(d, i))
-        return z3.And(to_a == to_b, val_a == val_b, payload_eq(da, db, idx))
+        c = [to_a == to_b, val_a == val_b, payload_eq(da, db, idx)]
+        if isinstance(gas_b, tuple) and gas_b[0] == "requested-gas":  # the reference semantics names an explicitly requested gas amount
+            c.append(gas_a == gas_b[1])
+        return z3.And(*c)
     if k in ("create", "create2"):
         da = (ea[2]["len"], lambda i, d=ea[2]: Mx.data_byte(d, i))
         db = (eb[2]["len"], lambda i, d=eb[2]: Mx.data_byte(d, i))
